@@ -10,6 +10,7 @@
   * "If the value of the alias replacing the word ends in a blank, the shell shall check the next command
     word for alias substitution": among the blanks skipped before a word there is the final blank of a value
     that ends in a blank.
+    The word put in place of a replaced word inherits that status (`bp`).
   * A word is a candidate only where the grammar reads a command name (`trans … = some true`), or the alias
     is global, or by the blank rule.  Which grammar position the next token is in is the same automaton
     `trans` as the model uses (it transcribes the parser, not the alias mechanism).
@@ -34,6 +35,7 @@ structure HState where
   active : List Region := []   -- aliases being processed, innermost first
   st : PState := .cmd0 .free
   toks : List Kind := []
+  bp : Bool := false           -- the blank rule already applied to the word that was just replaced here
   deriving Repr
 
 /-- regions that contain the character which has `rem` characters (itself included) up to the end -/
@@ -61,12 +63,13 @@ def hstep (T : Table) (s : HState) : Option HState :=
     let after := r.drop n
     let d := trans s.st tok.kind
     let here := activeAt s.active r.length
+    let blank := s.bp || blankRule s.active k s.rest
     let cand : Option Alias :=
       match d.sub, tok.kind with
       | some cmd, .word (some name) _ =>
         if here.any (fun x => x.name == name) then none else
         match T.lookup name with
-        | some a => if cmd || a.global || blankRule s.active k s.rest then some a else none
+        | some a => if cmd || a.global || blank then some a else none
         | none => none
       | _, _ => none
     match cand with
@@ -74,7 +77,7 @@ def hstep (T : Table) (s : HState) : Option HState :=
       let enclosing := here.map fun x => { x with endRem := min x.endRem after.length }
       some { out := skipped.reverse ++ s.out, rest := a.value ++ after,
              active := { name := a.name, endRem := after.length, eb := endsBlank a.value } :: enclosing,
-             st := d.onSub, toks := s.toks }
+             st := d.onSub, toks := s.toks, bp := blank }
     | none =>
       some { out := (r.take n).reverse ++ skipped.reverse ++ s.out, rest := after,
              active := activeAt s.active after.length, st := d.onTake, toks := tok.kind :: s.toks }
